@@ -105,7 +105,7 @@ def gen_case(rng, i):
             items.append({'kind': 'expr', 'expr': rng.choice([['NR'], ['NF']] + ([['bNR'], ['aNR']] if join else [['aNR']]))})
         elif r < 0.48:
             # a bare user variable: named after itself, however much its name resembles a column variable
-            items.append({'kind': 'expr', 'expr': ['uvar', rng.choice(sorted(qast.UVARS))]})
+            items.append({'kind': 'expr', 'expr': ['uvar', rng.choice(sorted(qast.UVARS))] if rng.random() < 0.6 else ['uattr', rng.choice(sorted(qast.UATTRS))]})
         elif r < 0.62:
             args = [g.e_str(1) if rng.random() < 0.6 else ['list', [g.e_str(0), ['int', 2], ['list', [['int', 1]]]]] for _ in range(rng.choice([1, 2, 3]))]
             if rng.random() < 0.5:
